@@ -346,10 +346,14 @@ impl Variant {
             match round_left {
                 Self::VInteger(i_left) => match round_right {
                     Self::VInteger(i_right) => Ok(Self::VInteger(i_left % i_right)),
-                    Self::VLong(_) => Err(VariantError::Overflow),
+                    Self::VLong(_) | Self::VSingle(_) | Self::VDouble(_) => {
+                        Err(VariantError::Overflow)
+                    }
                     _ => Err(VariantError::TypeMismatch),
                 },
                 Self::VLong(_) => Err(VariantError::Overflow),
+                // a rounded operand that is still a float is beyond the LONG range
+                Self::VSingle(_) | Self::VDouble(_) => Err(VariantError::Overflow),
                 _ => Err(VariantError::TypeMismatch),
             }
         }
